@@ -14,8 +14,13 @@ def StepOut.resp? : StepOut → Option Resp
   | .stop r _ _ => r
   | .crash => none
 
-theorem rebind_some (s : Stack) (r : Resp) : (rebind s r).isCrash = false ∧ (rebind s r).resp?.isSome = true := by
-  unfold rebind; simp only []; split <;> simp [StepOut.isCrash, StepOut.resp?]
+theorem rebind_some (s : Stack) (a : Nat) (r : Resp) : (rebind s a r).isCrash = false ∧ (rebind s a r).resp?.isSome = true := by
+  unfold rebind; simp only []
+  split
+  · simp [StepOut.isCrash, StepOut.resp?]
+  · split
+    · split <;> simp [StepOut.isCrash, StepOut.resp?]
+    · simp [StepOut.isCrash, StepOut.resp?]
 
 theorem digestResend_some (fx : Fixes) (s : Stack) (a : Nat) (r : Resp) (re : TOut) :
     (digestResend fx s a r re).isCrash = false ∧ (digestResend fx s a r re).resp?.isSome = true := by
@@ -24,7 +29,7 @@ theorem digestResend_some (fx : Fixes) (s : Stack) (a : Nat) (r : Resp) (re : TO
   | resp h =>
     simp only [digestResend]
     split
-    · exact rebind_some _ _
+    · exact rebind_some _ _ _
     · simp [StepOut.isCrash, StepOut.resp?]
 
 /-- On a non-nil response the repaired digest middleware never dereferences nil. -/
@@ -88,37 +93,40 @@ theorem attempt_some (fx : Fixes) (h1 : fx.nilGuard = true) (h2 : fx.digestRebin
 theorem deferred_some (resp : Option Resp) (err : Option Err) : ∃ r, deferred resp err = some r := by
   unfold deferred; exact ⟨_, rfl⟩
 
-/-- `do` of the repaired code never crashes and always returns a non-nil response. -/
+/-- `do` of the repaired code never crashes and — unless the script ran out under an unbounded
+retry — returns a non-nil response. -/
 theorem doLoop_some (fx : Fixes) (h1 : fx.nilGuard = true) (h2 : fx.digestRebind = true) (s : Stack) :
-    ∀ rem a prev, (doLoop fx s rem a prev).crash = false ∧ (doLoop fx s rem a prev).resp.isSome = true := by
-  intro rem
-  induction rem with
-  | zero =>
-    intro a prev
-    simp only [doLoop, (attempt_some fx h1 h2 s a prev).1]
-    obtain ⟨r, hr⟩ := deferred_some (attempt fx s a prev).resp (attempt fx s a prev).err
-    simp [stopOut, hr]
-  | succ rem ih =>
+    ∀ fuel a prev, (doLoop fx s fuel a prev).crash = false ∧
+      ((doLoop fx s fuel a prev).exhausted = false → (doLoop fx s fuel a prev).resp.isSome = true) := by
+  intro fuel
+  induction fuel with
+  | zero => intro a prev; simp [doLoop, exhaustedOut]
+  | succ fuel ih =>
     intro a prev
     obtain ⟨hc, hr⟩ := attempt_some fx h1 h2 s a prev
     simp only [doLoop, hc]
-    have hstop : (stopOut (attempt fx s a prev)).crash = false ∧ (stopOut (attempt fx s a prev)).resp.isSome = true := by
+    have hstop : (stopOut (attempt fx s a prev)).crash = false ∧
+        ((stopOut (attempt fx s a prev)).exhausted = false → (stopOut (attempt fx s a prev)).resp.isSome = true) := by
       obtain ⟨r, hr⟩ := deferred_some (attempt fx s a prev).resp (attempt fx s a prev).err
       simp [stopOut, hr]
     simp only [Bool.false_eq_true, if_false]
     split
     · exact hstop
     · split
-      · rename_i hret _
-        rcases hr with hr | ⟨hr, _⟩
-        · obtain ⟨r, hr'⟩ := Option.isSome_iff_exists.mp hr
-          simp only [hr']
-          exact ih _ _
-        · exact absurd hr hret
       · exact hstop
+      · split
+        · rename_i hret _ _
+          rcases hr with hr | ⟨hr, _⟩
+          · obtain ⟨r, hr'⟩ := Option.isSome_iff_exists.mp hr
+            simp only [hr']
+            split
+            · simp [waitOut]
+            · exact ih _ _
+          · exact absurd hr hret
+        · exact hstop
 
 theorem callDo_some (fx : Fixes) (h1 : fx.nilGuard = true) (h2 : fx.digestRebind = true) (s : Stack) :
-    (callDo fx s).crash = false ∧ (callDo fx s).resp.isSome = true := by
+    (callDo fx s).crash = false ∧ ((callDo fx s).exhausted = false → (callDo fx s).resp.isSome = true) := by
   unfold callDo
   split
   · simp
@@ -131,7 +139,7 @@ the attempt loop. -/
 theorem callDo_cases (fx : Fixes) (s : Stack) :
     (∃ e, (e = Err.builder ∨ e = Err.unreplayable) ∧
       callDo fx s = { atts := [], resp := some { origin := .synth, err := some e }, err := some e, crash := false }) ∨
-    callDo fx s = doLoop fx s s.maxRetries 0 none := by
+    callDo fx s = doLoop fx s s.fuelFor 0 none := by
   unfold callDo
   split
   · left; exact ⟨_, Or.inl rfl, rfl⟩
@@ -284,19 +292,41 @@ theorem autoRead_step (s : Stack) (r : Resp) : Step r.err (autoRead s r).1.err (
   · exact Step.refl _
 
 /-- What `parseResponseBody` does to the recorded error. -/
+theorem download_step (s : Stack) (a : Nat) (r : Resp) :
+    Step r.err (download s a r).1.err (raisedOf (download s a r).2) := by
+  unfold download
+  split
+  · exact Step.refl _
+  · split
+    · exact Step.refl _
+    · split
+      · exact Step.raise _ _
+      · exact Step.refl _
+
+/-- An error returned on top of what is recorded: the recorded one wins, else the new one is seen. -/
+theorem Step.orE_raise (cur : Option Err) (e : Err) : Step cur (orE cur (some e)) [e] := by
+  cases cur with
+  | none => exact Step.raise _ _
+  | some x => exact Or.inl ⟨rfl, Or.inr (by simp)⟩
+
 theorem parseBody_err (i : BindIn) :
     (∀ e, i.respErr = some e → ((parseBody i).err = none ∨ (parseBody i).err = some e) ∧ (parseBody i).respErr = some e) ∧
     (i.respErr = none →
       ((parseBody i).err = none ∧ (parseBody i).respErr = none) ∨
-      ((parseBody i).err = some .read ∧ (parseBody i).respErr = some .read) ∨
+      (∃ e, (parseBody i).err = some e ∧ (parseBody i).respErr = some e) ∨
       ((parseBody i).err = some .unmarshal ∧ (parseBody i).respErr = none)) := by
   obtain ⟨http, sT, eT, cE, respErr, cached, slots⟩ := i
   rcases http with _ | h
   · simp [parseBody]
   · rcases hsel : selectTarget ⟨some h, sT, eT, cE, respErr, cached, slots⟩ with _ | t
     · simp [parseBody, hsel]
-    · rcases respErr with _ | e <;> cases cached <;> cases hr : h.readOK <;> cases hc : codecOK h <;>
-        simp [parseBody, hsel, hr, hc]
+    · have hb : h.bodyOK = false → ∃ e, h.acqErr = some e := by
+        intro hb; unfold Http.bodyOK at hb
+        cases ha : h.acqErr with
+        | none => simp [ha] at hb
+        | some e => exact ⟨e, rfl⟩
+      rcases respErr with _ | e <;> cases cached <;> cases hr : h.bodyOK <;> cases hc : codecOK h <;>
+        simp [parseBody, hsel, hr, hc] <;> (obtain ⟨e, he⟩ := hb hr; simp [he])
 
 /-- The error recorded after the first (built-in) element of the client loop. -/
 def parsedErr (p : Parsed) : Option Err :=
@@ -315,7 +345,7 @@ theorem parseResp_step (s : Stack) (r : Resp) :
   have hb : (bindIn s r).respErr = r.err := rfl
   rw [hb] at h
   rcases hre : r.err with _ | e0
-  · rcases h.2 hre with ⟨h1, h2⟩ | ⟨h1, h2⟩ | ⟨h1, h2⟩
+  · rcases h.2 hre with ⟨h1, h2⟩ | ⟨e, h1, h2⟩ | ⟨h1, h2⟩
     · simp only [h1, h2, newErrEv]; exact Step.refl _
     · simp only [h1, newErrEv]; exact Step.raise _ _
     · simp only [h1, newErrEv]; exact Step.raise _ _
@@ -362,7 +392,7 @@ theorem clientRoundTrip_carry (s : Stack) (a : Nat) (hl : ∀ m ∈ s.clientAt a
           | none => (parseResp s (autoRead s (exchange s a).1).1).resp).err := by
       unfold parsedErr; split <;> simp_all
     rw [heq] at c2
-    exact c2.step (clientLoop_step _ hl 0 _)
+    exact (c2.step (download_step s a _)).step (clientLoop_step _ hl 0 _)
 
 /-- The error a `(resp, err)` pair carries: the one recorded in the response if any, else `err`. -/
 def RT.carried (rt : RT) : Option Err := orE (rt.resp.bind (·.err)) rt.err
@@ -426,7 +456,7 @@ theorem parseBody_ret_respErr (i : BindIn) (e : Err) (h : (parseBody i).err = so
     orE (parseBody i).respErr (some e) = some e := by
   have hh := parseBody_err i
   rcases hre : i.respErr with _ | e0
-  · rcases hh.2 hre with ⟨h1, _⟩ | ⟨h1, h2⟩ | ⟨h1, h2⟩
+  · rcases hh.2 hre with ⟨h1, _⟩ | ⟨e1, h1, h2⟩ | ⟨h1, h2⟩
     · rw [h1] at h; cases h
     · rw [h1] at h; cases h; simp [h2]
     · rw [h1] at h; cases h; simp [h2]
@@ -435,7 +465,7 @@ theorem parseBody_ret_respErr (i : BindIn) (e : Err) (h : (parseBody i).err = so
     · rw [h1] at h; cases h
     · rw [h1] at h; cases h; simp [h2]
 
-theorem rebind_step (s : Stack) (r : Resp) : Step r.err (rebind s r).seen (raisedOf (rebind s r).evs) := by
+theorem rebind_step (s : Stack) (a : Nat) (r : Resp) : Step r.err (rebind s a r).seen (raisedOf (rebind s a r).evs) := by
   have s1 := autoRead_step s r
   have s2 := parseResp_step s (autoRead s r).1
   have st := s1.trans s2
@@ -449,10 +479,20 @@ theorem rebind_step (s : Stack) (r : Resp) : Step r.err (rebind s r).seen (raise
       exact parseBody_ret_respErr _ e he
     rw [this]; exact st
   · rename_i he
-    simp only [StepOut.seen, StepOut.evs, raisedOf_cons_resend, raisedOf_append, Option.bind_some]
-    have : (parseResp s (autoRead s r).1).resp.err = parsedErr (parseResp s (autoRead s r).1) := by
+    have hpe : (parseResp s (autoRead s r).1).resp.err = parsedErr (parseResp s (autoRead s r).1) := by
       unfold parsedErr; rw [he]
-    rw [this]; exact st
+    split
+    · split
+      · rename_i e hse
+        simp only [StepOut.seen, StepOut.evs, raisedOf_cons_resend, raisedOf_append, Option.bind_some,
+          raisedOf_cons_raised, raisedOf_nil]
+        rw [hpe]
+        have := st.trans (Step.orE_raise (parsedErr (parseResp s (autoRead s r).1)) e)
+        simpa [List.append_assoc] using this
+      · simp only [StepOut.seen, StepOut.evs, raisedOf_cons_resend, raisedOf_append, Option.bind_some]
+        rw [hpe]; exact st
+    · simp only [StepOut.seen, StepOut.evs, raisedOf_cons_resend, raisedOf_append, Option.bind_some]
+      rw [hpe]; exact st
 
 theorem digestResend_step (fx : Fixes) (hfx : fx.digestRebind = true) (s : Stack) (a : Nat) (r : Resp) (re : TOut)
     (hr : r.err = none) :
@@ -463,7 +503,7 @@ theorem digestResend_step (fx : Fixes) (hfx : fx.digestRebind = true) (s : Stack
     exact Step.raise _ _
   | resp h =>
     simp only [digestResend, hfx, if_true]
-    have := rebind_step s { r with http := some h, tag := 2 * a + 1 }
+    have := rebind_step s a { r with http := some h, tag := 2 * a + 1 }
     exact this
 
 theorem forget_err (fx : Fixes) (r : Resp) : (forget fx r).err = r.err := by
@@ -596,17 +636,19 @@ theorem stopOut_seen (t : Att) : ∃ r, (stopOut t).resp = some r ∧ r.err = t.
 
 /-- `do` of the repaired code, no suppressing stage: the response it returns records an error
 whenever a stage of the LAST attempt raised one, and the recorded error is one that a stage
-raised during the call (or was already recorded in the response handed in). -/
+raised during the call (or was already recorded in the response handed in, or is the context's
+error assigned by the wait before a retry). -/
 theorem doLoop_seen (s : Stack) (hl : s.Loud) :
-    ∀ rem a prev, ∃ r tl, (doLoop Fixes.all s rem a prev).resp = some r ∧
-      (doLoop Fixes.all s rem a prev).atts.getLast? = some tl ∧
+    ∀ fuel a prev, (doLoop Fixes.all s fuel a prev).exhausted = false →
+      ∃ r tl, (doLoop Fixes.all s fuel a prev).resp = some r ∧
+      (doLoop Fixes.all s fuel a prev).atts.getLast? = some tl ∧
       (raisedOf tl.evs ≠ [] → r.err ≠ none) ∧
-      (∀ e, r.err = some e → e ∈ allRaised (doLoop Fixes.all s rem a prev).atts ∨ prev.bind (·.err) = some e) := by
-  intro rem
+      (∀ e, r.err = some e → e ∈ allRaised (doLoop Fixes.all s fuel a prev).atts ∨ prev.bind (·.err) = some e ∨ e = .ctxDone) := by
+  intro fuel
   have stop : ∀ a prev, ∃ r tl, (stopOut (attempt Fixes.all s a prev)).resp = some r ∧
       (stopOut (attempt Fixes.all s a prev)).atts.getLast? = some tl ∧
       (raisedOf tl.evs ≠ [] → r.err ≠ none) ∧
-      (∀ e, r.err = some e → e ∈ allRaised (stopOut (attempt Fixes.all s a prev)).atts ∨ prev.bind (·.err) = some e) := by
+      (∀ e, r.err = some e → e ∈ allRaised (stopOut (attempt Fixes.all s a prev)).atts ∨ prev.bind (·.err) = some e ∨ e = .ctxDone) := by
     intro a prev
     obtain ⟨r, h1, h2, h3⟩ := stopOut_seen (attempt Fixes.all s a prev)
     obtain ⟨c1, c2⟩ := attempt_seen s hl a prev
@@ -614,40 +656,46 @@ theorem doLoop_seen (s : Stack) (hl : s.Loud) :
     intro e he
     rw [h2] at he
     rw [h3]
-    simpa [allRaised] using c2 e he
-  induction rem with
-  | zero =>
-    intro a prev
-    simp only [doLoop, (attempt_some Fixes.all rfl rfl s a prev).1, Bool.false_eq_true, if_false]
-    exact stop a prev
-  | succ rem ih =>
-    intro a prev
+    rcases c2 e he with h | h
+    · left; simpa [allRaised] using h
+    · right; left; exact h
+  induction fuel with
+  | zero => intro a prev h; simp [doLoop, exhaustedOut] at h
+  | succ fuel ih =>
+    intro a prev hex
     obtain ⟨hc, hr⟩ := attempt_some Fixes.all rfl rfl s a prev
-    simp only [doLoop, hc, Bool.false_eq_true, if_false]
+    simp only [doLoop, hc, Bool.false_eq_true, if_false] at hex ⊢
     split
     · exact stop a prev
     · split
-      · rename_i hret _
-        rcases hr with hr | ⟨hr, _⟩
-        · obtain ⟨r0, hr0⟩ := Option.isSome_iff_exists.mp hr
-          simp only [hr0]
-          obtain ⟨r, tl, i1, i2, i3, i4⟩ := ih (a + 1) (some (cleanup r0))
-          obtain ⟨_, c2⟩ := attempt_seen s hl a prev
-          refine ⟨r, tl, i1, ?_, i3, ?_⟩
-          · have hne := (doLoop_atts_length Fixes.all s rem (a + 1) (some (cleanup r0))).1
-            cases hl' : (doLoop Fixes.all s rem (a + 1) (some (cleanup r0))).atts with
-            | nil => rw [hl'] at hne; simp at hne
-            | cons x xs => rw [hl'] at i2; simpa [List.getLast?_cons_cons] using i2
-          · intro e he
-            rcases i4 e he with h | h
-            · left; simp only [allRaised, List.flatMap_cons, List.mem_append]; right; exact h
-            · have hs : (attempt Fixes.all s a prev).seen = some e := by
-                simp only [Option.bind_some, cleanup] at h
-                simp [Att.seen, hr0, h]
-              rcases c2 e hs with h' | h'
-              · left; simp only [allRaised, List.flatMap_cons, List.mem_append]; left; exact h'
-              · right; exact h'
-        · exact absurd hr hret
       · exact stop a prev
+      · split
+        · rename_i hret hcr hnr
+          rcases hr with hr | ⟨hr, _⟩
+          · obtain ⟨r0, hr0⟩ := Option.isSome_iff_exists.mp hr
+            simp only [hr0] at hex ⊢
+            split
+            · exact ⟨_, _, rfl, rfl, by simp, by intro e he; simp at he; right; right; exact he.symm⟩
+            · rename_i hctx
+              simp only [hret, hcr, hnr, hctx, Bool.false_eq_true, if_false, if_true] at hex
+              obtain ⟨r, tl, i1, i2, i3, i4⟩ := ih (a + 1) (some (cleanup r0)) hex
+              obtain ⟨_, c2⟩ := attempt_seen s hl a prev
+              refine ⟨r, tl, i1, ?_, i3, ?_⟩
+              · have hne := doLoop_atts_pos Fixes.all s fuel (a + 1) (some (cleanup r0)) hex
+                cases hl' : (doLoop Fixes.all s fuel (a + 1) (some (cleanup r0))).atts with
+                | nil => rw [hl'] at hne; simp at hne
+                | cons x xs => rw [hl'] at i2; simpa [List.getLast?_cons_cons] using i2
+              · intro e he
+                rcases i4 e he with h | h | h
+                · left; simp only [allRaised, List.flatMap_cons, List.mem_append]; right; exact h
+                · have hs : (attempt Fixes.all s a prev).seen = some e := by
+                    simp only [Option.bind_some, cleanup] at h
+                    simp [Att.seen, hr0, h]
+                  rcases c2 e hs with h' | h'
+                  · left; simp only [allRaised, List.flatMap_cons, List.mem_append]; left; exact h'
+                  · right; left; exact h'
+                · right; right; exact h
+          · exact absurd hr hret
+        · exact stop a prev
 
 end Req.Pipeline
